@@ -129,7 +129,13 @@ def run(ck, m):
     for k, v in RULES.items():
         ck.rule(k, v)
     ex = m.explorer()
-    prefix = m.secure_prefix()
+    try:
+        prefix = m.secure_prefix()
+    except core.AnchorError as e:
+        gb, spec = m.guard_of_kind('safe')
+        ck.ob('C08.b', short(gb.id), 'secure-prefix-test', False,
+              'the secure-key guard no longer tests its key against a constant prefix (%s)' % e, '%s:%s' % (gb.file, gb.line))
+        prefix = '$$'
     disp, sw = m.dispatcher()
     n_arms = 0
     n_eff = 0
@@ -368,7 +374,23 @@ def token_irremovable(ck, m):
     if not tok_sw:
         ck.ob('C08.d', fn, 'token-refusal', False, 'no comparison of the key with a $$ constant found', '%s:%s' % (b.file, b.line))
         return
+    # the refused constant must be the key the token validator reads (found as the whole-constant key of a
+    # credential read in the UseDb arm)
+    ex = m.explorer()
+    tokens = set()
+    effs, raw = m.arm_effects('UseDb')
+    for ev, kind, info in effs:
+        if kind == 'map-read' and ev.frame.body.locals[0] == 'bool':
+            for v in info.get('key', ()):
+                lit, whole = ex.literal_prefix(v)
+                if whole and lit:
+                    tokens.add(lit)
+    tok_sw = [x for x in tok_sw if set(x[3]) & tokens] or [(x[0], x[1], x[2], x[3], False) for x in tok_sw[:1]]
     sbi, tt, ft, cs, keyed = tok_sw[0]
+    if not (set(cs) & tokens):
+        ck.ob('C08.d', fn, 'token-refusal', False,
+              'remove refuses %s, but the database token is stored under %s: the token can be removed' % (cs, sorted(tokens)), b.loc(sbi))
+        return
     # with the "not equal" edge cut, no effectful call is reachable and the return is an Error aggregate
     reach = reachable_without(b, {(sbi, ft)})
     bad = []
